@@ -102,38 +102,75 @@ theorem mlsDims_eq (ls : List (List Pt)) : mlsDims ls = Gen.multiLineStringDimen
   simp only [← lsDims_eq]
   exact (mlsLoop ls .empty (Or.inl rfl)).symm
 
-theorem mpolyLoop (ps : List Poly) (m : Dim) (hm : m ≠ .two) :
-    (match Gen.loop (σ := Dim) (ρ := Dim) ps (fun geom s =>
-        if (polyDims geom == .two) then .ret .two else .next (Dim.max s (polyDims geom))) m with
+/-- a loop `max = max.max(f x)` with the short cut `return TwoDimensional` is the plain left fold of `max` -/
+theorem dimLoop {β : Type} (f : β → Dim) (xs : List β) (m : Dim) (hm : m ≠ .two) :
+    (match Gen.loop (σ := Dim) (ρ := Dim) xs (fun g s =>
+        if (f g == .two) then .ret .two else .next (Dim.max s (f g))) m with
       | .ret r => r
-      | .next s => s) = ps.foldl (fun (m : Dim) p => m.max (polyDims p)) m := by
-  induction ps generalizing m with
+      | .next s => s) = xs.foldl (fun (m : Dim) x => m.max (f x)) m := by
+  induction xs generalizing m with
   | nil => simp [Gen.loop]
   | cons q qs ih =>
     simp only [Gen.loop, List.foldl_cons]
-    by_cases h : polyDims q = .two
+    by_cases h : f q = .two
     · simp only [h, beq_self_eq_true, if_true]
       have hmax : m.max .two = .two := by cases m <;> first | rfl | exact absurd rfl hm
       rw [hmax]
-      have : ∀ (l : List Poly), l.foldl (fun (m : Dim) p => m.max (polyDims p)) .two = .two := by
+      have : ∀ (l : List β), l.foldl (fun (m : Dim) x => m.max (f x)) .two = .two := by
         intro l
         induction l with
         | nil => rfl
         | cons a t iht =>
           simp only [List.foldl_cons]
-          have : Dim.two.max (polyDims a) = .two := by cases polyDims a <;> rfl
+          have : Dim.two.max (f a) = .two := by cases f a <;> rfl
           rw [this, iht]
       rw [this]
-    · have hb : (polyDims q == .two) = false := by simpa using h
+    · have hb : (f q == .two) = false := by simpa using h
       simp only [hb, Bool.false_eq_true, if_false]
       apply ih
       intro hc
-      cases m <;> cases hq : polyDims q <;> simp_all [Dim.max, Dim.rank]
+      cases m <;> cases hq : f q <;> simp_all [Dim.max, Dim.rank]
 
 theorem mpolyDims_eq (ps : List Poly) : mpolyDims ps = Gen.multiPolygonDimensions ps := by
   unfold mpolyDims Gen.multiPolygonDimensions
   simp only [← polyDims_eq]
-  exact (mpolyLoop ps .empty (by decide)).symm
+  exact (dimLoop polyDims ps .empty (by decide)).symm
+
+theorem mpolyBoundaryDims_eq (ps : List Poly) : boundaryOfDims (mpolyDims ps) = Gen.multiPolygonBoundaryDimensions ps := by
+  unfold Gen.multiPolygonBoundaryDimensions
+  rw [← mpolyDims_eq]
+  cases mpolyDims ps <;> rfl
+
+theorem Dim.max_assoc (a b c : Dim) : (a.max b).max c = a.max (b.max c) := by
+  cases a <;> cases b <;> cases c <;> rfl
+
+theorem foldl_max_dimsList (gs : List Geom) (m : Dim) :
+    gs.foldl (fun (m : Dim) g => m.max (dims g)) m = m.max (dimsList gs) := by
+  induction gs generalizing m with
+  | nil => cases m <;> rfl
+  | cons g gs ih => simp only [List.foldl_cons, ih, dimsList, Dim.max_assoc]
+
+/-- `GeometryCollection::dimensions`, the recursive call through the `Geometry` enum being `dims` itself -/
+theorem gcDims_eq (gs : List Geom) : dims (.collection gs) = Gen.geometryCollectionDimensions dims gs := by
+  unfold Gen.geometryCollectionDimensions
+  simp only [dims]
+  have h := dimLoop dims gs .empty (by decide)
+  rw [foldl_max_dimsList] at h
+  have e : Dim.empty.max (dimsList gs) = dimsList gs := by cases dimsList gs <;> rfl
+  rw [e] at h
+  exact h.symm
+
+theorem multiPoint_eq (ps : List Pt) :
+    dims (.multiPoint ps) = Gen.multiPointDimensions ps ∧ isEmptyG (.multiPoint ps) = Gen.multiPointIsEmpty ps := by
+  simp [dims, isEmptyG, Gen.multiPointDimensions, Gen.multiPointIsEmpty]
+
+theorem multiIsEmpty_eq : (∀ ls : List (List Pt), isEmptyG (.multiLineString ls) = Gen.multiLineStringIsEmpty ls) ∧
+    (∀ ps : List Poly, isEmptyG (.multiPolygon ps) = Gen.multiPolygonIsEmpty ps) := by
+  refine ⟨fun ls => ?_, fun ps => ?_⟩
+  · simp only [isEmptyG, Gen.multiLineStringIsEmpty]
+    congr 1
+  · simp only [isEmptyG, Gen.multiPolygonIsEmpty]
+    congr 1
 
 theorem rectDims_eq (mn mx : Pt) : rectDims mn mx = Gen.rectDimensions mn mx := rfl
 
